@@ -117,7 +117,7 @@ def drill(d, props, tier="quick"):
         if rc != 0:
             return {"error": "patch does not apply: " + out[-500:]}
         for p in props:
-            env = dict(os.environ, VERIF_REPO=wt)
+            env = dict(os.environ, VERIF_REPO=wt, VERIF_EVIDENCE_DIR=f"/tmp/mut/evidence-{os.getpid()}")
             t0 = time.time()
             rc, out = sh(f"{VERIF}/check {p} {tier}", cwd=VERIF, env=env, timeout=7200)
             lines = [l for l in out.splitlines() if l.startswith(("VIOLATION", "violation:", "HARNESS", "BUILD", "KNOWN"))]
